@@ -4,6 +4,7 @@ import (
 	"fmt"
 	"go/token"
 	"go/types"
+	"sort"
 	"strings"
 
 	"golang.org/x/tools/go/ssa"
@@ -28,7 +29,7 @@ func runC03(c *core.Ctx) {
 	c.Rule("R3.1", "lock kind: every mutating command and get-and-touch locks exclusively, get and gete lock shared; the shared table is the one holding RLocker() results", 10)
 	c.Rule("R3.2", "key to lock: the selector hashes the key of the command (the loop's key for multi-key gets), the bucket is that hash masked by the table size, and the wrapped call is given the same key", 10)
 	c.Rule("R3.3", "critical section: the wrapped orchestrator call is dominated by Lock and followed by Unlock of the same locker on every path", 10)
-	c.Rule("R3.4", "both listening ports use one lock set: LockedWithExisting gets the id returned by the Locked call of the main port, and both constructors index the same lock tables", 2)
+	c.Rule("R3.4", "both listening ports use one lock set: LockedWithExisting gets the id returned by the Locked call of the main port, and both constructors index the same lock tables and create the same key hasher", 3)
 	c.Rule("R3.5", "multi-reader locking is not selected when chunking is enabled", 1)
 
 	role, err := resolveOrca(c, "Locked")
@@ -124,6 +125,38 @@ func runC03(c *core.Ctx) {
 	c.Check(same && len(fields) == 2, "R3.4", "orcas.Locked/LockedWithExisting#same-tables", c.P.Pos(role.Ctor.Pos()), fmt.Sprintf("both constructors take fields %v from the same lock tables", fields),
 		"Locked and LockedWithExisting do not index the same lock tables: the two ports lock different mutexes for one key")
 	tableOfField := func(f string) string { return fieldTable["Locked."+f] }
+	// R3.4 (c): both constructors equip the wrapper with the same hash function (a key must select the same stripe on
+	// both ports)
+	hashers := map[string][]string{}
+	for _, cn := range []string{"Locked", "LockedWithExisting"} {
+		cf := c.P.Func("orcas", cn)
+		if cf == nil {
+			continue
+		}
+		seen := map[*ssa.Function]bool{}
+		var visit func(f *ssa.Function)
+		visit = func(f *ssa.Function) {
+			if seen[f] {
+				return
+			}
+			seen[f] = true
+			ssax.Instrs(f, func(ins ssa.Instruction) {
+				if cc := ssax.CallOf(ins); cc != nil {
+					if n := ssax.CalleeName(cc); strings.HasPrefix(n, "hash/") || strings.HasPrefix(n, "crypto/") {
+						hashers[cn] = append(hashers[cn], n)
+					}
+				}
+			})
+			for _, a := range f.AnonFuncs {
+				visit(a)
+			}
+		}
+		visit(cf)
+		sort.Strings(hashers[cn])
+	}
+	hl, hw := strings.Join(uniq(hashers["Locked"]), ","), strings.Join(uniq(hashers["LockedWithExisting"]), ",")
+	c.Check(hl == hw, "R3.4", "orcas.Locked/LockedWithExisting#same-hash", c.P.Pos(role.Ctor.Pos()), "both constructors create the key hasher with ["+hl+"]",
+		"Locked creates the key hasher with ["+hl+"], LockedWithExisting with ["+hw+"]: a key selects different lock stripes on the two ports, whose commands then do not exclude each other")
 
 	// ---- the selector
 	var selector *ssa.Function
